@@ -722,3 +722,6 @@ def check(ctx):
     r3b_removal_cookie(ctx)
     r4_only_sync_talks_to_store(ctx)
     r6_wire_symmetry(ctx)
+
+
+CLAUSE += "; the typestate exploration is closed over REQUESTS (a cookie handed out without a record starts the next request); the client state a request starts with is the cookie's, unfiltered"
